@@ -442,6 +442,118 @@ Proof.
   - apply hier_levels_ok. exact H.
 Qed.
 
+(* boolexpr: Node.UnmarshalCBOR + checkTree + the shareholder/leaf cross-check.  Every node of
+   the tree is an attribute leaf with a non-zero ID or a gate with 1 <= threshold <= #children,
+   at least one child and no two attribute children with the same ID; the wire shareholder map
+   has exactly the tree's leaves as keys and every value true *)
+Inductive node_ok : item -> Prop :=
+| node_attr : forall n, node_kind n = 2 -> nat_of (fld k_attr n) <> 0 -> node_ok n
+| node_gate : forall n,
+    node_kind n = 1 ->
+    (1 <= int_of (fld k_threshold n) <= lenZ (arr_of (fld k_children n)))%Z ->
+    arr_of (fld k_children n) <> [] ->
+    NoDup (attr_children n) ->
+    Forall node_ok (arr_of (fld k_children n)) -> node_ok n.
+
+Lemma forallb_flat_map {A B} (f : B -> bool) (g : A -> list B) l :
+  forallb f (flat_map g l) = true -> forall a, In a l -> forallb f (g a) = true.
+Proof.
+  induction l as [|x l IH]; cbn [flat_map]; intros H a Hin; [contradiction|].
+  apply forallb_app_true in H. destruct H as [Hx Hl].
+  destruct Hin as [<-|Hin]; [exact Hx|exact (IH Hl a Hin)].
+Qed.
+
+Lemma node_rules_ok : forall fuel n,
+  forallb (fun r : rule => snd r) (node_rules fuel n) = true -> node_ok n.
+Proof.
+  induction fuel as [|f IH]; intros n H; cbn [node_rules] in H.
+  - cbn in H. discriminate.
+  - cbv zeta in H. destruct (node_kind n =? 2) eqn:K2.
+    + cbn [forallb snd] in H. apply andb_true_iff in H. destruct H as [Ha _].
+      apply negb_true_iff, N.eqb_neq in Ha. apply N.eqb_eq in K2. apply node_attr; assumption.
+    + destruct (node_kind n =? 1) eqn:K1; [|cbn in H; discriminate].
+      apply forallb_app_true in H. destruct H as [Hh Hc]. cbn [forallb snd] in Hh.
+      repeat (apply andb_true_iff in Hh; destruct Hh as [? Hh]).
+      repeat match goal with Ha : (_ && _) = true |- _ => apply andb_true_iff in Ha; destruct Ha end.
+      repeat match goal with Hn : negb _ = true |- _ => apply negb_true_iff in Hn end.
+      apply N.eqb_eq in K1. apply node_gate.
+      * exact K1.
+      * split; apply Z.leb_le; assumption.
+      * intros E. match goal with He : (len (arr_of _) =? 0) = false |- _ => rewrite E in He; cbn in He; discriminate end.
+      * apply nodupN_NoDup. assumption.
+      * apply Forall_forall. intros c Hin. apply IH.
+        exact (forallb_flat_map _ _ _ Hc c Hin).
+Qed.
+
+Lemma is_true_item v : (match v with Simple 21 => true | _ => false end) = true -> v = Simple 21.
+Proof.
+  destruct v as [n|n|b|b|l|l|tg y|s]; try discriminate.
+  destruct s as [|p]; [discriminate|].
+  do 5 (destruct p as [p|p|]; try discriminate); reflexivity.
+Qed.
+
+Theorem boolexpr_valid_spec : forall x,
+  valid TBoolexpr x = true ->
+  let d := untag x in
+  node_ok (fld k_root d) /\
+  seteqN (keys_of (fld k_shareholders d)) (node_leaves 64 (fld k_root d)) = true /\
+  (forall k v, In (k, v) (pairs_of (fld k_shareholders d)) -> v = Simple 21).
+Proof.
+  intros x H. unfold valid in H. cbn [rules_of] in H. unfold boolexpr_rules in H. cbv zeta in H.
+  apply forallb_app_true in H. destruct H as [Hn Hs]. cbn [forallb snd] in Hs.
+  apply andb_true_iff in Hs. destruct Hs as [Hs _]. apply andb_true_iff in Hs. destruct Hs as [Hk Hv].
+  cbv zeta. split; [exact (node_rules_ok 64 _ Hn)|]. split; [exact Hk|].
+  intros k v Hin. rewrite forallb_forall in Hv. specialize (Hv _ Hin). cbn [snd] in Hv.
+  apply is_true_item. exact Hv.
+Qed.
+
+(* pedersen.Share.UnmarshalCBOR: ID non-zero, secret and blinding non-empty and of equal length *)
+Theorem pedshare_valid_spec : forall c x,
+  valid (TPedShare c) x = true ->
+  nat_of (fld k_sharingID x) <> 0 /\ arr_of (fld k_secret x) <> [] /\ arr_of (fld k_blinding x) <> [] /\
+  len (arr_of (fld k_secret x)) = len (arr_of (fld k_blinding x)).
+Proof.
+  intros c x H. unfold valid in H. cbn [rules_of] in H. unfold pedshare_rules in H. cbv zeta in H.
+  apply forallb_app_true in H. destruct H as [H _]. cbn [forallb snd] in H.
+  repeat (apply andb_true_iff in H; destruct H as [? H]).
+  repeat match goal with Ha : (_ && _) = true |- _ => apply andb_true_iff in Ha; destruct Ha end.
+  repeat match goal with Hn : negb _ = true |- _ => apply negb_true_iff in Hn end.
+  repeat split.
+  - match goal with He : (nat_of _ =? 0) = false |- _ => apply N.eqb_neq in He; exact He end.
+  - intros E. rewrite E in *. cbn in *. discriminate.
+  - intros E. rewrite E in *. cbn in *. discriminate.
+  - apply N.eqb_eq. assumption.
+Qed.
+
+(* dkls23.NewPartialSignature: u and w non-zero scalars, r a point of the right length *)
+Theorem dklspartial_valid_spec : forall c x,
+  valid (TDklsPartial c) x = true ->
+  scalar_is_zero (fld k_u x) = false /\ scalar_is_zero (fld k_w x) = false /\
+  len (bytes_of (fld k_compressedBytes (fld k_r x))) = c_plen c.
+Proof.
+  intros c x H. unfold valid in H. cbn [rules_of] in H. unfold dklspartial_rules in H.
+  apply forallb_app_true in H. destruct H as [Hp H].
+  apply forallb_app_true in H. destruct H as [_ H].
+  apply forallb_app_true in H. destruct H as [_ H].
+  unfold point_rules in Hp. cbn [forallb snd] in Hp, H.
+  repeat (apply andb_true_iff in H; destruct H as [? H]).
+  repeat (apply andb_true_iff in Hp; destruct Hp as [? Hp]).
+  repeat match goal with Ha : (_ && _) = true |- _ => apply andb_true_iff in Ha; destruct Ha end.
+  repeat match goal with Hn : negb _ = true |- _ => apply negb_true_iff in Hn end.
+  repeat split; try assumption. apply N.eqb_eq. assumption.
+Qed.
+
+(* num.NatPlus.UnmarshalCBOR: the value is not zero *)
+Theorem natplus_valid_spec : forall x,
+  valid TNatPlus x = true ->
+  exists b, In b (bytes_of (fld k_natBytes (fld k_natPlus x))) /\ b <> 0.
+Proof.
+  intros x H. unfold valid in H. cbn [rules_of] in H. unfold natplus_rules in H.
+  cbn [forallb snd] in H. apply andb_true_iff in H. destruct H as [H _].
+  apply existsb_exists in H. destruct H as [b [Hin Hb]].
+  exists b. split; [exact Hin|]. apply negb_true_iff, N.eqb_neq in Hb. exact Hb.
+Qed.
+
 (* ------------------------------------------------------------------ *)
 (* the field lists of the hand-written schemas are exactly the wire field names (and omitempty
    flags) of the DTO structs as regenerated from the source (gen/SerdeDtos.v) *)
